@@ -413,7 +413,7 @@ func specStay(v int) bool {
 //@   ensures [class@C07] result == specStay(codePoint)
 
 //@ func (l *Lexer) ReadChar()
-//@   props C10 C11
+//@   props C10 C11 C02 C13
 //@   requires lexInv(l) || lexInit(l)
 //@   modifies l.position, l.readPosition, l.CurrentChar, l.Line, l.Column
 //@   ensures [cursor] lexInv(l)
@@ -533,6 +533,11 @@ func specStay(v int) bool {
 //@   loop 1 each [escape.u4@C07] implies(byteAt(l.input, atHead(l.position)+1) == '\\' && byteAt(l.input, atHead(l.position)+2) == 'u' && byteAt(l.input, atHead(l.position)+3) != '{' && specHex(byteAt(l.input, atHead(l.position)+3)) && specHex(byteAt(l.input, atHead(l.position)+4)) && specHex(byteAt(l.input, atHead(l.position)+5)) && specHex(byteAt(l.input, atHead(l.position)+6)) && !specStay(specHexVal(byteAt(l.input, atHead(l.position)+3))*4096+specHexVal(byteAt(l.input, atHead(l.position)+4))*256+specHexVal(byteAt(l.input, atHead(l.position)+5))*16+specHexVal(byteAt(l.input, atHead(l.position)+6))), ncalls("encodeUTF8") == 1 && callArg[int]("encodeUTF8", 0, 0) == specHexVal(byteAt(l.input, atHead(l.position)+3))*4096+specHexVal(byteAt(l.input, atHead(l.position)+4))*256+specHexVal(byteAt(l.input, atHead(l.position)+5))*16+specHexVal(byteAt(l.input, atHead(l.position)+6)))
 //@   loop 1 each [escape.u4.kept@C07] implies(byteAt(l.input, atHead(l.position)+1) == '\\' && byteAt(l.input, atHead(l.position)+2) == 'u' && byteAt(l.input, atHead(l.position)+3) != '{' && specHex(byteAt(l.input, atHead(l.position)+3)) && specHex(byteAt(l.input, atHead(l.position)+4)) && specHex(byteAt(l.input, atHead(l.position)+5)) && specHex(byteAt(l.input, atHead(l.position)+6)) && specStay(specHexVal(byteAt(l.input, atHead(l.position)+3))*4096+specHexVal(byteAt(l.input, atHead(l.position)+4))*256+specHexVal(byteAt(l.input, atHead(l.position)+5))*16+specHexVal(byteAt(l.input, atHead(l.position)+6))), writeSeq(evByte('\\'), evByte('u'), evByte(byteAt(l.input, atHead(l.position)+3)), evByte(byteAt(l.input, atHead(l.position)+4)), evByte(byteAt(l.input, atHead(l.position)+5)), evByte(byteAt(l.input, atHead(l.position)+6))))
 //@   loop 1 each [escape.u4.invalid@C07] implies(byteAt(l.input, atHead(l.position)+1) == '\\' && byteAt(l.input, atHead(l.position)+2) == 'u' && byteAt(l.input, atHead(l.position)+3) != '{' && !(specHex(byteAt(l.input, atHead(l.position)+3)) && specHex(byteAt(l.input, atHead(l.position)+4)) && specHex(byteAt(l.input, atHead(l.position)+5)) && specHex(byteAt(l.input, atHead(l.position)+6))), writeSeq(evByte('\\'), evByte('u')))
+//@   loop 2 invariant [digits@C07] len(hexDigits) == l.position-atEntry(l.position) && forall(0, len(hexDigits), func(k int) bool { return hexDigits[k] == byteAt(l.input, atEntry(l.position)+1+k) })
+//@   loop 3 before [kept.head@C07] writeSeq(evByte('\\'), evByte('u'), evByte('{'))
+//@   loop 3 each [copy@C07] writeSeq(evByte(digit))
+//@   loop 5 before [kept.head@C07] writeSeq(evByte('\\'), evByte('u'), evByte('{'))
+//@   loop 5 each [copy@C07] writeSeq(evByte(digit))
 //@   loop 6 each [copy@C07] writeSeq(evByte(b))
 //@   loop 7 each [copy@C07] writeSeq(evByte(b))
 //@   loop 3 invariant [frame] true
@@ -545,7 +550,7 @@ func specStay(v int) bool {
 //@   ensures [closed@C07] l.position >= len(l.input) || l.input[l.position] == delimiter
 
 //@ func (l *Lexer) readLeadingComments()
-//@   props C10 C11 C15
+//@   props C10 C11 C15 C02 C13
 //@   requires lexInv(l)
 //@   modifies l.position, l.readPosition, l.CurrentChar, l.Line, l.Column, l.hadNewlineBefore, l.leadingComments, l.carriedComments
 //@   loop 1 invariant [cursor] lexInv(l) && old(l.position) <= l.position
@@ -568,7 +573,7 @@ func specStay(v int) bool {
 //@   ensures [nl] l.hadNewlineBefore == hasNL(l.input, old(l.position), l.position)
 
 //@ func baseNextToken(l)
-//@   props C10 C11 C08
+//@   props C10 C11 C08 C02 C13
 //@   requires l != nil && lexInv(l)
 //@   modifies l.position, l.readPosition, l.CurrentChar, l.Line, l.Column
 //@   ensures [cursor] lexInv(l)
@@ -592,7 +597,7 @@ func specStay(v int) bool {
 //@ fieldcontract Lexer.nextToken lexer.baseNextToken
 
 //@ func (l *Lexer) NextToken()
-//@   props C10 C11 C04 C15
+//@   props C10 C11 C04 C15 C02 C13
 //@   requires lexInv(l)
 //@   modifies l.position, l.readPosition, l.CurrentChar, l.Line, l.Column, l.hadNewlineBefore, l.leadingComments, l.carriedComments
 //@   ensures [cursor] lexInv(l)
